@@ -12,6 +12,21 @@ class InjectedFault(Exception):
     pass
 
 
+class InjectedInterrupt(KeyboardInterrupt):
+    """control-c / SIGINT arriving at that line: a failure like any other as far as the file is concerned, but not an `Exception`"""
+
+
+class InjectedExit(SystemExit):
+    """sys.exit() from a signal handler / a host application shutting down"""
+
+
+class InjectedMemory(MemoryError):
+    pass
+
+
+FAULT_CLASSES = [InjectedFault, InjectedInterrupt, InjectedMemory, InjectedExit]
+
+
 _OPEN_LOG: list | None = None
 _TARGET: str | None = None
 _HOOK_INSTALLED = False
@@ -63,7 +78,7 @@ def install_hook():
         _HOOK_INSTALLED = True
 
 
-def run_traced(fn, target: str, pkg_dir: str, fault_at: int | None = None):
+def run_traced(fn, target: str, pkg_dir: str, fault_at: int | None = None, fault_cls=InjectedFault, trace: bool = True):
     """run fn() counting line events in frames whose code lives under pkg_dir; raise InjectedFault when the counter reaches fault_at.
     Returns (exception or None, number of line events, open log for `target`)."""
     global _OPEN_LOG, _TARGET
@@ -79,7 +94,7 @@ def run_traced(fn, target: str, pkg_dir: str, fault_at: int | None = None):
             _EVENT_NO[0] += 1
             if fault_at is not None and _EVENT_NO[0] == fault_at:
                 FIRED[0] = True
-                raise InjectedFault(f"injected at line event {fault_at}: {os.path.basename(frame.f_code.co_filename)}:{frame.f_lineno}")
+                raise fault_cls(f"injected at line event {fault_at}: {os.path.basename(frame.f_code.co_filename)}:{frame.f_lineno}")
         return local
 
     def tracer(frame, event, arg):
@@ -89,8 +104,9 @@ def run_traced(fn, target: str, pkg_dir: str, fault_at: int | None = None):
 
     exc = None
     old = sys.gettrace()
-    sys.settrace(tracer)
-    threading.settrace(tracer)      # threads the library starts (worker pools) are traced and can be faulted too
+    if trace:
+        sys.settrace(tracer)
+        threading.settrace(tracer)      # threads the library starts (worker pools) are traced and can be faulted too
     try:
         try:
             fn()
